@@ -48,6 +48,7 @@ class Ctx:
         self.samples = []
         self.functions = set()
         self.cells = 0
+        self.pending = []
 
     # -- bookkeeping
     def fn(self, name):
@@ -71,8 +72,9 @@ class Ctx:
     def floor(self, n, floor, what):
         """Fail closed if fewer sites matched than counted by hand."""
         if n < floor:
-            raise AnchorMissing('%s: only %d %s matched, expected at least %d'
-                                % (self.rule.id, n, what, floor))
+            # deferred: a rule that also found a violation reports the violation;
+            # otherwise the unmet floor is an anchor error (never a silent pass)
+            self.pending.append('%s: only %d %s matched, expected at least %d' % (self.rule.id, n, what, floor))
 
     def violation(self, function, descriptor, message, loc=None, path=None):
         key = '%s|%s|%s' % (self.rule.id, function, descriptor)
@@ -107,7 +109,15 @@ def run(ruleset, F, tier, seed, t0, extra_rules=(), checker_cmd='', write_eviden
             r.fn(cx)
             if not cx.sites and not cx.cells:
                 raise AnchorMissing('%s: rule examined no site (vacuous)' % r.id)
+            if cx.pending and not cx.violations:
+                raise AnchorMissing('; '.join(cx.pending))
         except AnchorMissing as e:
+            if cx.violations:
+                # the rule had already established violations before an anchor went missing
+                print('ANCHOR-MISSING (after violations) %s' % e)
+                results.append((r, cx))
+                all_viol.extend(cx.violations)
+                continue
             infra_errors.append(str(e))
             print('ANCHOR-MISSING %s' % e)
             continue
